@@ -719,7 +719,7 @@ pub fn run(tier: Tier, prop: &'static str) -> (Stats, VioSet) {
     let outs = par_map(&lens, 16, |&len| {
         let mut cx = Cx { stats: Stats::new(), vios: VioSet::default(), prop, cur_prior: None };
         let fill16: [&[u16]; 4] = [&[0x61], &[0xE9], &[0x3042], &[0xD83D, 0xDE00]];
-        let plant16s: [&[u16]; 25] = [&[0xD800, 0xE000], &[0xDBFF, 0xE3FF], &[0xD800, 0xE400], &[0xD800, 0xD7FF], &[0xDBFF, 0xFFFF], &[0xDC00, 0xE000], &[0xD800, 0x7F], &[0xD800, 0x80], &[0xDBFF, 0xD800, 0xDC00], &[0xE000], &[0xD800, 0xDFFF], &[0xDBFF, 0xDFFF], &[0xDBFF, 0xDC00], &[0xD800], &[0xDC00], &[0xDC00, 0xD800], &[0xE9], &[0xD83D, 0xDE00], &[0x3042], &[0x61], &[0xD83D, 0xDE00, 0xDC00], &[0xD83D, 0xDE00, 0xDC00, 0xDC00], &[0xD83D, 0xDE00, 0x20, 0xDC00], &[0xD83D, 0xDE00, 0x20], &[0xD83D, 0xD83D, 0xDE00]];
+        let plant16s: [&[u16]; 28] = [&[0xDFFF], &[0xDBFF], &[0xDFFF, 0xD800], &[0xD800, 0xE000], &[0xDBFF, 0xE3FF], &[0xD800, 0xE400], &[0xD800, 0xD7FF], &[0xDBFF, 0xFFFF], &[0xDC00, 0xE000], &[0xD800, 0x7F], &[0xD800, 0x80], &[0xDBFF, 0xD800, 0xDC00], &[0xE000], &[0xD800, 0xDFFF], &[0xDBFF, 0xDFFF], &[0xDBFF, 0xDC00], &[0xD800], &[0xDC00], &[0xDC00, 0xD800], &[0xE9], &[0xD83D, 0xDE00], &[0x3042], &[0x61], &[0xD83D, 0xDE00, 0xDC00], &[0xD83D, 0xDE00, 0xDC00, 0xDC00], &[0xD83D, 0xDE00, 0x20, 0xDC00], &[0xD83D, 0xDE00, 0x20], &[0xD83D, 0xD83D, 0xDE00]];
         // all destination lengths only for short sources (cost) in quick
         let all_dst = len <= if q { 24 } else { 64 };
         for f in fill16.iter() {
